@@ -1,6 +1,7 @@
 /- Line-protocol driver: one case per input line, one canonical answer line per case. -/
 import Dblib.Model.PacketQueueDriver
 import Dblib.Model.Isolation
+import Dblib.Model.PacketReaderDriver
 import Dblib.Model.Mux
 import Dblib.Model.Life
 import Dblib.Model.LoginRecord
@@ -18,6 +19,7 @@ def handle (line : String) : String :=
   match words line with
   | "pq" :: args => PQ.run args
   | "iso" :: args => Isolation.run args
+  | "rd" :: args => Reader.run args
   | "mux" :: args => Mux.run args
   | "life" :: args => Life.run args
   | "lr" :: args => LoginRecord.run args
